@@ -131,6 +131,25 @@ func (fx *FnExec) call(fr *frame, st *State, res ssa.Value, cc *ssa.CallCommon) 
 			st.ghost["call|"+key+"|res0"] = r
 		}
 	}
+	if fr.depth == 0 && fr.contract != nil {
+		for _, a := range fr.contract.Afters {
+			if a.Callee != key {
+				continue
+			}
+			env := &CEnv{fx: fx, fr: fr, st: st, old: fr.entry, vars: fr.cvars}
+			v := env.Eval(a.Expr)
+			t, ok := v.V.(*Term)
+			if !ok {
+				panic(oosError{"after ... let: scalar expression expected (" + a.Name + ")"})
+			}
+			st.ghost["cap|"+a.Name] = t
+			v.V = nil
+			if fx.capTypes == nil {
+				fx.capTypes = map[string]CVal{}
+			}
+			fx.capTypes[a.Name] = v
+		}
+	}
 	return r
 }
 
@@ -620,6 +639,7 @@ func (fx *FnExec) copyBuiltin(fr *frame, st *State, cc *ssa.CallCommon, args []V
 		fx.assumeGlobal(c.Forall([]*Term{k}, c.Eq(c.Select(narr, k), c.Ite(in, c.Select(src, c.BVBin("bvadd", soff, rel)), c.Select(darr, k)))))
 	}
 	fx.setElemArray(st, et, dst.Ref, narr)
+	fx.curPC = st.pc
 	fx.arrayUpdated(darr, narr, dst.Off, n)
 	if src.Sort == byteArr {
 		// the copied window denotes the same abstract byte string as its source
@@ -679,6 +699,7 @@ func (fx *FnExec) appendBuiltin(fr *frame, st *State, cc *ssa.CallCommon, args [
 	ncap := c.Fresh("append.cap", BV(64))
 	fx.assumeGlobal(c.And(c.BVCmp("bvsle", newLen, ncap), c.BVCmp("bvsle", ncap, c.BVConst(mask(maxLenBits), 64))))
 	fx.assumeGlobal(c.BVCmp("bvsle", newLen, c.BVConst(mask(maxLenBits), 64)))
+	fx.assumeGlobal(c.Eq(c.App("alen", BV(64), nr), ncap))
 	res := SliceV{c.Ite(inplace, s.Ref, nr), c.Ite(inplace, s.Off, fx.bv64(0)), newLen, c.Ite(inplace, s.Cap, ncap)}
 	fx.private[nr] = privInfo{t: et, backing: true}
 	if tsl, isSl := args[1].(SliceV); isSl && isStructT(et) && tlen.Op == "bv" && tlen.Val.IsInt64() && tlen.Val.Int64() <= 4 {
@@ -757,6 +778,11 @@ func (fx *FnExec) syncCall(fr *frame, st *State, callee *ssa.Function, args []Va
 			return fx.c.Fresh("trylock", BoolSort)
 		}
 	case "WaitGroup", "Once", "Cond", "Pool", "Map":
+		if recvName == "WaitGroup" && (n == "Add" || n == "Done") {
+			// counter bookkeeping: does not block, touches only the WaitGroup's own (unmodelled) state
+			fx.note("sync.WaitGroup.Add/Done: counter bookkeeping, no effect on the modelled heap (a negative counter panic is not modelled)")
+			return nil
+		}
 		fx.note("sync." + recvName + " operations: heap havoc'd")
 		return fx.havocCall(fr, st, "sync."+recvName+"."+n, args, rt, "")
 	}
